@@ -49,6 +49,8 @@ def _case(draw, tier):
     c["compiled"] = draw(st.booleans())
     c["interval"] = draw(st.one_of(st.none(), gen.subinterval_for(g).map(list)))
     c["mt_array"] = draw(st.sampled_from([False, False, True]))
+    # valid trains handed over with Reconcile=False: the bound applies all the same
+    c["reconcile_off"] = draw(st.sampled_from([False, False, True]))
     return c
 
 
@@ -111,6 +113,8 @@ def _observe(ctx, case, st1, st2, mt):
     kw = {}
     if case["mrts"] is not None:
         kw["MRTS"] = case["mrts"]
+    if case.get("reconcile_off"):
+        kw["Reconcile"] = False
     mk = {} if mt == "omit" else {"max_tau": mt}
     if case.get("mt_array") and isinstance(mt, float) and mt > 0:
         # the bound handed over as a 0-d numpy array (as np.loadtxt / loadmat give it):
